@@ -10,7 +10,12 @@
    value and lies behind the previously applied hunk's cell; Create sets all
    cells of an absent or empty file; Delete needs all cells to match.
 
-   File patch   [kind \in {"M","C","D"}, old, new (NULL = /dev/null), ren,
+   A file patch of kind "E" is one the tool refuses with an error as soon as
+   it looks at it (a name that leaves the working tree): if the push gets to
+   it - it is in a patch up to and including the first patch that fails - the
+   whole push ends in an error and leaves nothing behind.
+
+   File patch   [kind \in {"M","C","D","E"}, old, new (NULL = /dev/null), ren,
                  hunks : Seq([cell, from, to]), to, from : Seq(Nat), nmode]
    Patch        [fps : Seq(file patch), rev : BOOLEAN (series entry marked -R)]                                      *)
 EXTENDS Naturals, Integers, Sequences, FiniteSets
@@ -81,13 +86,16 @@ ApplyFP(tree, fp, rev) ==
             THEN [tree EXCEPT ![fp.new] = [tree[target] EXCEPT !.ex = TRUE], ![target] = Absent]
             ELSE tree
       final == IF fp.ren THEN fp.new ELSE target
-      r == ApplyBody(t1[final], body)
-  IN IF refused
+      r == IF fp.kind = "E" THEN [f |-> tree[target], failed |-> {}] ELSE ApplyBody(t1[final], body)
+  IN IF fp.kind = "E"
      THEN [tree |-> tree, ok |-> FALSE, attempted |-> FALSE, target |-> target, final |-> target, failed |-> {},
-           before |-> tree[target], beforeNew |-> Absent]
+           before |-> tree[target], beforeNew |-> Absent, err |-> TRUE]
+     ELSE IF refused
+     THEN [tree |-> tree, ok |-> FALSE, attempted |-> FALSE, target |-> target, final |-> target, failed |-> {},
+           before |-> tree[target], beforeNew |-> Absent, err |-> FALSE]
      ELSE [tree |-> [t1 EXCEPT ![final] = WithMode(r.f, body)], ok |-> r.failed = {}, attempted |-> TRUE,
            target |-> target, final |-> final, failed |-> r.failed,
-           before |-> tree[target], beforeNew |-> IF fp.ren THEN tree[fp.new] ELSE Absent]
+           before |-> tree[target], beforeNew |-> IF fp.ren THEN tree[fp.new] ELSE Absent, err |-> FALSE]
 
 RECURSIVE ApplyFPs(_, _, _, _)
 ApplyFPs(tree, fps, i, rev) ==
@@ -98,19 +106,21 @@ ApplyFPs(tree, fps, i, rev) ==
            adv |-> Adversarial(tree, fps[i], rev) \/ rest.adv,
            results |-> <<[ok |-> r.ok, attempted |-> r.attempted, target |-> r.target, final |-> r.final,
                           failed |-> r.failed, before |-> r.before, beforeNew |-> r.beforeNew,
-                          ren |-> fps[i].ren, new |-> fps[i].new]>> \o rest.results]
+                          ren |-> fps[i].ren, new |-> fps[i].new, err |-> r.err]>> \o rest.results]
 
 PatchOk(rs) == \A i \in 1..Len(rs) : rs[i].ok
+PatchErr(rs) == \E i \in 1..Len(rs) : rs[i].err
 
 -----------------------------------------------------------------------------
 (* the push over series[first+1 .. last] *)
 RECURSIVE Run(_, _, _, _, _, _)
 \* acc: results of the applied patches, in order
 Run(tree, series, i, last, acc, adv) ==
-  IF i > last THEN [k |-> Len(acc), tree |-> tree, applied |-> acc, failing |-> <<>>, stopped |-> FALSE, adv |-> adv]
+  IF i > last THEN [k |-> Len(acc), tree |-> tree, applied |-> acc, failing |-> <<>>, stopped |-> FALSE, adv |-> adv, error |-> FALSE]
   ELSE LET r == ApplyFPs(tree, series[i].fps, 1, series[i].rev)
-       IN IF PatchOk(r.results) THEN Run(r.tree, series, i + 1, last, Append(acc, r.results), adv \/ r.adv)
-          ELSE [k |-> Len(acc), tree |-> tree, applied |-> acc, failing |-> r.results, stopped |-> TRUE, adv |-> adv \/ r.adv]
+       IN IF PatchErr(r.results) THEN [k |-> 0, tree |-> tree, applied |-> <<>>, failing |-> <<>>, stopped |-> TRUE, adv |-> adv \/ r.adv, error |-> TRUE]
+          ELSE IF PatchOk(r.results) THEN Run(r.tree, series, i + 1, last, Append(acc, r.results), adv \/ r.adv)
+          ELSE [k |-> Len(acc), tree |-> tree, applied |-> acc, failing |-> r.results, stopped |-> TRUE, adv |-> adv \/ r.adv, error |-> FALSE]
 
 ParentDir(p) == IF p \in {"d/c", "d/e"} THEN "d" ELSE ""
 DirExists(tree, d) == d = "" \/ \E p \in Paths : ParentDir(p) = d /\ tree[p].ex
@@ -148,13 +158,14 @@ Outcome(tree0, series, first, last, cfg) ==
       rej == {[path |-> p, parts |-> PartsOf(p)] : p \in RejPaths}
       rejOpt == {}
   IN [k       |-> r.k,
-      tree    |-> IF cfg.dry THEN tree0 ELSE r.tree,
+      error   |-> r.error,                                            \* the push ends in an error: nothing is left behind
+      tree    |-> IF cfg.dry \/ r.error THEN tree0 ELSE r.tree,
       applied |-> IF cfg.dry THEN 0 ELSE r.k,                         \* names appended by this run
-      rejects |-> IF cfg.dry THEN {} ELSE rej,
+      rejects |-> IF cfg.dry \/ r.error THEN {} ELSE rej,
       rejectsOptional |-> IF cfg.dry THEN {} ELSE rejOpt,
       adversarial |-> r.adv,
-      backups |-> IF cfg.dry \/ ~doBackup THEN {}
+      backups |-> IF cfg.dry \/ ~doBackup \/ r.error THEN {}
                   ELSE UNION {BackupsOf(r.applied[j], first + j) : j \in from..r.k},
       exit    |-> IF r.stopped THEN 1 ELSE 0,
-      failingPatch |-> IF r.stopped THEN first + r.k + 1 ELSE 0]
+      failingPatch |-> IF r.stopped /\ ~r.error THEN first + r.k + 1 ELSE 0]
 =============================================================================
